@@ -358,8 +358,8 @@ def c10(ctx):
 class UnionRender(TypeRender):
     UT = {'u8': ('u8', 1, 1), 'u16': ('u16', 2, 2), 'a3': ('[u8; 3]', 3, 1), 'u32': ('u32', 4, 4), 'a16x4': ('[u16; 4]', 8, 2)}
 
-    def __init__(self, idx, cfg, prop):
-        super().__init__(idx, cfg, prop)
+    def __init__(self, idx, cfg, prop, **kw):
+        super().__init__(idx, cfg, prop, **kw)
         self.pool = None
 
     def usize(self):
@@ -368,10 +368,10 @@ class UnionRender(TypeRender):
         al = max(self.UT[f['ty']][2] for f in fs)
         return (sz + al - 1) // al * al
 
-    def item(self):
+    def item(self, derive=True):
         fs = self.cfg['variants'][0]['fields']
         body = ', '.join('f%d: %s' % (i, self.UT[f['ty']][0]) for i, f in enumerate(fs, 1))
-        return '#[derive(Educe)] %s union %s { %s, raw: [u8; %d] }' % (self.type_attr(), self.name, body, self.usize())
+        return '%s%s union %s { %s, raw: [u8; %d] }' % ('#[derive(Educe)] ' if derive else '', self.type_attr(), self.name, body, self.usize())
 
     def case_impl(self):
         n = self.usize()
